@@ -308,10 +308,14 @@ func ruleC19Clone(c *Ctx) {
 		snap := `(("volume-snap-" + $5) + ".img")`
 		c.Guard(rule, fn, CallsTo(fn, fTask+"syncFiles"), "copy", nil, Need{Desc: "snapshot S found in the source chain (snapFound)", Edge: func(b *ssa.BasicBlock, k int) bool {
 			iff, ok := b.Instrs[len(b.Instrs)-1].(*ssa.If)
-			if !ok || k != 0 {
+			if !ok {
 				return false
 			}
-			s := R.CondAtom(iff.Cond).String()
+			at := R.CondAtom(iff.Cond)
+			if k == 1 {
+				at = at.Neg()
+			}
+			s := at.String()
 			return strings.HasPrefix(s, "phi{") && strings.HasSuffix(s, "| true}")
 		}})
 		// snapFound is set only where the chain element equals volume-snap-<S>.img
